@@ -1,9 +1,127 @@
 (* Props/C16.v — C16: Number/Dimension/URL/data-URI/media-type helpers, folds and the css/html
    hash tables match their definitions.  Statements only; each is closed by [exact] of a lemma
-   proved under Helpers/. *)
-From Verif Require Import Common.Base Helpers.Model Helpers.Proofs.
+   proved under Helpers/.  The models are in Helpers/Model.v (a Go panic is None / Panic), the
+   reference definitions (is_number, is_unit, encode_ref, unescape, trim_ref, fold_eq, ...) next to
+   the proofs.  [is_byte c] is 0 <= c < 256. *)
+From Verif Require Import Common.Base Helpers.Model Helpers.Lists Helpers.Proofs Helpers.NumberProofs
+  Helpers.UrlProofs Helpers.HashProofs.
 From Verif Require Gen.Tables.
 
+(* ---- Number, Dimension -------------------------------------------------------------------------- *)
+(* Number returns the length of the LONGEST prefix that is a number of the documented grammar
+   (+|-)?([0-9]+(\.[0-9]+)?|\.[0-9]+)((e|E)(+|-)?[0-9]+)?, and 0 exactly when no non-empty prefix is. *)
+Theorem number_longest_prefix :
+  forall b n, number b = Some n ->
+    0 <= n <= len b /\
+    (0 < n -> is_number (firstz n b)) /\
+    (forall m, n < m <= len b -> ~ is_number (firstz m b)) /\
+    (n = 0 <-> forall m, 0 < m <= len b -> ~ is_number (firstz m b)).
+Proof. exact number_longest_prefix_proof. Qed.
+Print Assumptions number_longest_prefix.
+
+(* Dimension: the number as above and the length of the longest following unit ('%' or [a-zA-Z]+);
+   no unit without a number. *)
+Theorem dimension_spec :
+  forall b n u, dimension b = Some (n, u) ->
+    number b = Some n /\ 0 <= u /\ n + u <= len b /\
+    (n = 0 -> u = 0) /\
+    (0 < u -> is_unit (slice b n (n + u))) /\
+    (0 < n -> forall m, u < m -> n + m <= len b -> ~ is_unit (slice b n (n + m))).
+Proof. exact dimension_spec_proof. Qed.
+Print Assumptions dimension_spec.
+
+Theorem no_panic_number : forall b, exists n, number b = Some n.
+Proof. exact number_no_panic_proof. Qed.
+Print Assumptions no_panic_number.
+
+Theorem no_panic_dimension : forall b, exists n u, dimension b = Some (n, u).
+Proof. exact dimension_no_panic_proof. Qed.
+Print Assumptions no_panic_dimension.
+
+(* ---- EncodeURL / DecodeURL ------------------------------------------------------------------------- *)
+(* EncodeURL escapes exactly the bytes its table marks (%HH, upper-case hex), for ANY 256-entry
+   table that does not mark a hex digit the function itself writes for a marked byte (EncodeURL
+   re-reads the digits it has just written); it neither panics nor runs out of fuel. *)
+Theorem encode_exact :
+  forall t b, table256 t -> enc_stable t -> Forall is_byte b -> encode_url b t = Ok (encode_ref t b).
+Proof. exact encode_exact_proof. Qed.
+Print Assumptions encode_exact.
+
+(* both tables of /repo (as generated on this run) satisfy the side condition *)
+Theorem encode_exact_repo_tables :
+  forall b, Forall is_byte b ->
+    encode_url b Tables.url_encoding_table = Ok (encode_ref Tables.url_encoding_table b) /\
+    encode_url b Tables.datauri_encoding_table = Ok (encode_ref Tables.datauri_encoding_table b).
+Proof. exact UrlProofs.encode_exact_repo_tables. Qed.
+Print Assumptions encode_exact_repo_tables.
+
+(* without the side condition the clause is false: with a table that marks '4', EncodeURL("4")
+   never terminates (the model runs out of any amount of fuel) *)
+Theorem encode_any_table_refuted :
+  exists t b, table256 t /\ Forall is_byte b /\ forall fuel, encode_loop fuel t b 0 = OutOfFuel.
+Proof. exact encode_any_table_refuted_proof. Qed.
+Print Assumptions encode_any_table_refuted.
+
+(* DecodeURL is the left-to-right unescape (what url.QueryUnescape computes where it succeeds),
+   for every byte string; it never panics. *)
+Theorem decode_spec : forall b, decode_url b = Ok (unescape b).
+Proof. exact decode_spec_proof. Qed.
+Print Assumptions decode_spec.
+
+(* DecodeURL inverts EncodeURL with the standard URL table (which marks '%' and '+': a fact about
+   the generated table). *)
+Theorem decode_encode_url :
+  forall b, Forall is_byte b ->
+    exists r, encode_url b Tables.url_encoding_table = Ok r /\ decode_url r = Ok b.
+Proof. exact decode_encode_url_proof. Qed.
+Print Assumptions decode_encode_url.
+
+(* ... and for any table with these properties *)
+Theorem decode_encode_any_table :
+  forall t b r, table256 t -> enc_stable t -> tbl t 37 = Some true -> tbl t 43 = Some true ->
+    Forall is_byte b -> encode_url b t = Ok r -> decode_url r = Ok b.
+Proof. exact decode_encode_proof. Qed.
+Print Assumptions decode_encode_any_table.
+
+(* DataURIEncodingTable does not mark '+', which DecodeURL turns into a space: no round trip *)
+Theorem datauri_table_plus_refuted :
+  exists b, Forall is_byte b /\
+    exists r, encode_url b Tables.datauri_encoding_table = Ok r /\ decode_url r <> Ok b.
+Proof. exact datauri_table_plus_refuted_proof. Qed.
+Print Assumptions datauri_table_plus_refuted.
+
+(* ---- hash tables -------------------------------------------------------------------------------------- *)
+(* Both generated tables are perfect: every Hash constant has a non-empty text and ToHash maps
+   that text back to the constant (finite: 7 css and 10 html constants, re-checked on every run
+   against the tables dumped from /repo). *)
+Theorem hash_tables_perfect :
+  (forall h, In h Tables.css_hash_consts ->
+     h <> 0 /\ css_hash_bytes h <> [] /\ css_to_hash (css_hash_bytes h) = Some h) /\
+  (forall h, In h Tables.html_hash_consts ->
+     h <> 0 /\ html_hash_bytes h <> [] /\ html_to_hash (html_hash_bytes h) = Some h).
+Proof. exact hash_tables_perfect_proof. Qed.
+Print Assumptions hash_tables_perfect.
+
+(* For EVERY byte string and ANY table contents (uint32 entries; hashing is mod 2^32 in the model):
+   a non-zero result is a table entry whose text (Hash.Bytes) is the argument.  So a string that
+   is not the text of an entry gives 0. *)
+Theorem tohash_sound :
+  forall text table hash0 maxlen, Forall is_u32 table ->
+    forall s h, to_hash text table hash0 maxlen s = Some h -> h <> 0 ->
+      In h table /\ hash_bytes text h = s /\ 0 < len s <= maxlen.
+Proof. exact tohash_sound_proof. Qed.
+Print Assumptions tohash_sound.
+
+(* On the generated tables ToHash never panics, and a non-zero result is a declared constant. *)
+Theorem no_panic_tohash :
+  (forall s, exists h, css_to_hash s = Some h /\
+     (h <> 0 -> In h Tables.css_hash_consts /\ css_hash_bytes h = s)) /\
+  (forall s, exists h, html_to_hash s = Some h /\
+     (h <> 0 -> In h Tables.html_hash_consts /\ html_hash_bytes h = s)).
+Proof. exact tohash_generated_proof. Qed.
+Print Assumptions no_panic_tohash.
+
+(* ---- folds, trims, tables -------------------------------------------------------------------------------- *)
 (* IsWhitespace / IsNewline (the generated tables) are exactly space, \t, \n, \f, \r and \n, \r. *)
 Theorem whitespace_tables_spec :
   forall c, is_byte c -> is_whitespace c = Some (ws_ref c) /\ is_newline c = Some (nl_ref c).
@@ -18,13 +136,46 @@ Theorem tolower_spec :
 Proof. exact to_lower_spec_proof. Qed.
 Print Assumptions tolower_spec.
 
-(* Both generated tables are perfect: every Hash constant has a non-empty text and ToHash maps
-   that text back to the constant (finite: 7 css and 10 html constants, re-checked on every run
-   against the tables dumped from /repo). *)
-Theorem hash_tables_perfect :
-  (forall h, In h Tables.css_hash_consts ->
-     h <> 0 /\ css_hash_bytes h <> [] /\ css_to_hash (css_hash_bytes h) = Some h) /\
-  (forall h, In h Tables.html_hash_consts ->
-     h <> 0 /\ html_hash_bytes h <> [] /\ html_to_hash (html_hash_bytes h) = Some h).
-Proof. exact hash_tables_perfect_proof. Qed.
-Print Assumptions hash_tables_perfect.
+(* EqualFold(s, target) is true iff the lengths agree and every byte of s equals the target byte
+   or is an upper-case letter whose lower-case form is the target byte; for a target without
+   upper-case letters (the documented precondition) that is ToLower(s) = target. *)
+Theorem equalfold_spec :
+  forall s t, exists r, equal_fold s t = Some r /\ (r = true <-> Forall2 fold_eq s t).
+Proof. exact equalfold_spec_proof. Qed.
+Print Assumptions equalfold_spec.
+
+Theorem equalfold_lower_spec :
+  forall s t, Forall (fun c => ~ (65 <= c <= 90)) t ->
+    exists r, equal_fold s t = Some r /\ (r = true <-> to_lower s = t).
+Proof. exact equalfold_lower_spec_proof. Qed.
+Print Assumptions equalfold_lower_spec.
+
+(* TrimWhitespace returns the sub-slice that is the argument without its leading and trailing
+   whitespace (trim_ref = rev . drop_ws . rev . drop_ws; characterised by trim_ref_char). *)
+Theorem trim_spec :
+  forall b, Forall is_byte b ->
+    exists lo hi, trim_whitespace b = Some (lo, hi) /\ 0 <= lo <= hi /\ hi <= len b /\
+                  slice b lo hi = trim_ref b.
+Proof. exact trim_spec_proof. Qed.
+Print Assumptions trim_spec.
+
+Theorem trim_ref_is_the_trim :
+  forall b, exists pre post, b = pre ++ trim_ref b ++ post /\ Forall ws pre /\ Forall ws post /\
+    (forall c t, trim_ref b = c :: t -> ~ ws c) /\ (forall t c, trim_ref b = t ++ [c] -> ~ ws c).
+Proof. exact trim_ref_char. Qed.
+Print Assumptions trim_ref_is_the_trim.
+
+(* IsAllWhitespace *)
+Theorem allws_spec :
+  forall b, Forall is_byte b -> exists r, all_ws b = Some r /\ (r = true <-> Forall ws b).
+Proof. exact allws_spec_proof. Qed.
+Print Assumptions allws_spec.
+
+Theorem no_panic_util :
+  forall s t, Forall is_byte s ->
+    (exists r, equal_fold s t = Some r) /\
+    (exists lo hi, trim_whitespace s = Some (lo, hi)) /\
+    (exists r, all_ws s = Some r) /\
+    (forall c, is_byte c -> exists w n, is_whitespace c = Some w /\ is_newline c = Some n).
+Proof. exact no_panic_util_proof. Qed.
+Print Assumptions no_panic_util.
